@@ -52,6 +52,9 @@ type c11NameScenario struct {
 	// DeclareDefault: `networks.default` is declared (without attributes when its spelling is implicit)
 	DeclareDefault bool `json:"declare_default"`
 	NullRes        bool `json:"null_res"` // resources without attributes are written `key:` instead of `key: {}`
+	// IncName (origin include): the included file has a `name:` of its own (`incname`) — not a source of the
+	// project name: the resources it declares are still named after the including project
+	IncName bool `json:"inc_name,omitempty"`
 }
 
 const (
@@ -183,6 +186,9 @@ func c11NameBuild(sc c11NameScenario, implicit bool) (files map[string]string, c
 		inc := map[string]any{"services": map[string]any{"a": svcA}}
 		for k, v := range resources {
 			inc[k] = v
+		}
+		if sc.IncName {
+			inc["name"] = "incname"
 		}
 		files["wd-name/inc.yaml"] = c11YAML(inc)
 		main["include"] = []any{"inc.yaml"}
@@ -391,11 +397,26 @@ func c11NamesOracle(ctx *core.Ctx) {
 			}
 		}
 	}
+	// an included file with a `name:` of its own, under every combination of real sources
+	for file := 0; file <= 4; file++ {
+		for _, imp := range []bool{false, true} {
+			for _, env := range []bool{false, true} {
+				for entry := 0; entry < 2; entry++ {
+					sc := c11NameScenario{File: file, Imp: imp, Env: env, Entry: entry, Origin: "include", IncName: true, Spell: map[string]int{}}
+					for _, s := range c11NameSections {
+						sc.Spell[s] = nmD
+					}
+					ctx.Count("names:included-file-has-name")
+					add(sc)
+				}
+			}
+		}
+	}
 	ctx.Res.Exhaustive = true
 	for i := 0; i < ctx.Pick(300, 8000); i++ {
 		r := ctx.Rng
 		sc := c11NameScenario{File: r.Intn(5), Imp: r.Intn(2) == 0, Env: r.Intn(2) == 0, Entry: r.Intn(2), Origin: []string{"main", "override", "include"}[r.Intn(3)],
-			Spell: map[string]int{}, DeclareDefault: r.Intn(2) == 0, NullRes: r.Intn(2) == 0}
+			Spell: map[string]int{}, DeclareDefault: r.Intn(2) == 0, NullRes: r.Intn(2) == 0, IncName: r.Intn(3) == 0}
 		for _, s := range c11NameSections {
 			sc.Spell[s] = []int{nmI, nmD, nmO, nmVar}[r.Intn(4)]
 		}
